@@ -3,6 +3,7 @@ properties C01, C02, C03, C10, C11, C12 (DESIGN.md section 5, 'Concurrency prope
 from .common import *
 from .runtime_lib import *
 from pyvc.engine import Event
+from pyvc.values import SV, VTuple, VDict
 import pyvc.z as Z
 
 RUN = "cobald.daemon.runners."
@@ -78,3 +79,396 @@ class thread_manage:
         return {"returns-only-on-graceful-close": c.And(flag(self._payload_failure, "is_done"), self._payload_failure.stored_exc == None)}
 
     raises = {"BaseException": lambda c, self, exc: c.Or(c.And(flag(self._payload_failure, "is_done"), self._payload_failure.stored_exc == exc), exc.isa("asyncio.CancelledError"))}
+
+
+# ================================================================================ asyncio / trio monitors (K1)
+APayload = payload_type("payload", is_async=True)
+# PEP 479: a StopIteration leaving a coroutine is turned into RuntimeError by Python itself before cobald sees it
+APayload.contract.raises = {"BaseException": lambda c, exc, **k: c.Not(exc.isa("StopIteration"))}
+
+TaskSet = TAbs("TaskSet", fields={}, events=False)
+TaskSet.methods["discard"] = amethod("set.discard", {"self": TaskSet, "item": ANYT}, emits=lambda c, ctx, self, item: ctx.emit("tasks.discard", self, item), has_events=True)
+TaskSet.methods["add"] = amethod("set.add", {"self": TaskSet, "item": ANYT}, emits=lambda c, ctx, self, item: ctx.emit("tasks.add", self, item), has_events=True)
+AsyncR = TObj(RUN + "asyncio_runner:AsyncioRunner", asyncio_loop=ALoop, _tasks=TaskSet, _payload_failure=Future, _logger=PyLogger, _stopped=TEvent)
+
+
+def _first(c, fut0, fut1, F_ok, k):
+    """at event index k: set_exception(F) iff the future was not done; F satisfies F_ok"""
+    e = c.event_at(k)
+    return c.And(
+        c.Implies(c.Not(flag(fut0, "is_done")), c.And(c.n_events() == k + 1, ev_kind(c, k, "set_exception"), Event.e_a(e) == fut1.t, F_ok(Event.e_b(e)), flag(fut1, "is_done"), fut1.stored_exc.t == Event.e_b(e))),
+        c.Implies(flag(fut0, "is_done"), c.And(c.n_events() == k, c.unchanged(fut1, "is_done", "stored_exc"))),
+    )
+
+
+@contract(RUN + "asyncio_runner:AsyncioRunner._monitor_payload", props=["C01"])
+class asyncio_monitor:
+    """K1 (asyncio): every outcome other than `return None`, cancellation and KeyboardInterrupt becomes the runner's failure"""
+    params = dict(self=AsyncR, payload=APayload)
+    has_events = True
+    result = TAny()
+
+    def writes(c, self, payload):
+        return [(self._payload_failure, "is_done"), (self._payload_failure, "stored_exc")]
+
+    def ensures(c, self, payload, result):
+        v = Event.e_b(c.event_at(1))
+        f0, f1 = c.old(self._payload_failure), self._payload_failure
+        returned = c.And(ev_kind(c, 0, "payload"), Event.e_a(c.event_at(0)) == payload.t, ev_kind(c, 1, "returned"))
+        raised = c.And(ev_kind(c, 0, "payload"), Event.e_a(c.event_at(0)) == payload.t, ev_kind(c, 1, "raised"))
+        return {
+            "payload-awaited-exactly-once": c.Or(returned, raised),
+            "None-is-no-failure": c.Implies(c.And(returned, Z.is_none(v)), c.And(c.n_events() == 2, c.unchanged(f1, "is_done", "stored_exc"))),
+            "any-other-return-value-even-a-falsy-one-becomes-an-OrphanedReturn-carrying-it": c.Implies(
+                c.And(returned, c.Not(Z.is_none(v))), c.And(ev_kind(c, 2, "tasks.discard"), _first(c, f0, f1, lambda F: orphaned(c, F, payload, c.view_term(v, TAny(), c.new_heap)), 3))),
+            "any-other-exception-becomes-the-failure-itself": c.Implies(raised, c.And(ev_kind(c, 2, "tasks.discard"), _first(c, f0, f1, lambda F: F == v, 3))),
+        }
+
+    def _propagates(c, self, payload, exc):
+        return c.And(c.n_events() == 2, ev_kind(c, 1, "raised"), Event.e_b(c.event_at(1)) == exc.t, c.unchanged(self._payload_failure, "is_done", "stored_exc"))
+
+    raises = {"asyncio.CancelledError": _propagates, "KeyboardInterrupt": _propagates}
+
+
+TrioR = TObj(RUN + "trio_runner:TrioRunner", asyncio_loop=ALoop, _logger=PyLogger, _stopped=TEvent, _ready=TAny(), _trio_token=TAny(), _submit_tasks=TAny())
+
+
+@contract(RUN + "trio_runner:TrioRunner._monitor_payload", props=["C01"])
+class trio_monitor:
+    """K1 (trio): the wrapper itself fails with the payload's exception or with OrphanedReturn carrying the value
+    (the nursery turns that into the failure of trio.run - assumed contract of trio)"""
+    params = dict(self=TrioR, payload=APayload)
+    has_events = True
+
+    def ensures(c, self, payload):
+        return {"returns-only-when-the-payload-returned-None": c.And(c.n_events() == 2, ev_kind(c, 1, "returned"), Z.is_none(Event.e_b(c.event_at(1))))}
+
+    def _fails(c, self, payload, exc):
+        v = Event.e_b(c.event_at(1))
+        return c.And(c.n_events() == 2, ev_kind(c, 0, "payload"), Event.e_a(c.event_at(0)) == payload.t,
+                     c.Or(c.And(ev_kind(c, 1, "raised"), v == exc.t),
+                          c.And(ev_kind(c, 1, "returned"), c.Not(Z.is_none(v)), orphaned(c, exc.t, payload, c.view_term(v, TAny(), c.new_heap)))))
+
+    raises = {"BaseException": _fails}
+
+
+# ================================================================================ BaseRunner.run (K3)
+BaseR = TObj(RUN + "base_runner:BaseRunner", asyncio_loop=ALoop, _logger=PyLogger, _stopped=TEvent)
+BaseR.exact_cls = False
+
+
+@contract(RUN + "base_runner:BaseRunner.manage_payloads", props=["C01"], skip_body=True, kind="abstract", is_async=True)
+class base_manage:
+    """interface of the subclass hook: any outcome (verified per subclass above)"""
+    params = dict(self=BaseR)
+    has_events = True
+    result = TAny()
+
+    def emits(c, ctx, self):
+        ctx.emit("manage_payloads", self)
+
+    def emits_after(c, ctx, outcome, value, self):
+        ctx.emit("managed-returned" if outcome == "return" else "managed-raised", self, value)
+
+    raises = {"BaseException": lambda c, self, exc: True}
+
+
+@contract(RUN + "base_runner:BaseRunner.run", props=["C01", "C02"])
+class base_run:
+    """K3: run ends exactly as manage_payloads ends - for every exception class - and marks the runner stopped on every exit"""
+    params = dict(self=BaseR)
+    has_events = True
+    result = TAny()
+
+    def writes(c, self):
+        return [(self._stopped, "isset")]
+
+    def ensures(c, self, result):
+        return {"returns-only-when-manage-returned": c.events_are(c.event("event.clear", self._stopped), c.event("manage_payloads", self), c.event_at(2), c.event("event.set", self._stopped)),
+                "manage-returned": ev_kind(c, 2, "managed-returned"),
+                "marked-stopped": flag(self._stopped, "isset")}
+
+    def _same(c, self, exc):
+        return c.And(c.n_events() == 4, c.event_at(0) == c.event("event.clear", self._stopped), c.event_at(1) == c.event("manage_payloads", self),
+                     c.event_at(2) == c.event("managed-raised", self, exc), c.event_at(3) == c.event("event.set", self._stopped), flag(self._stopped, "isset"))
+
+    raises = {"BaseException": _same}
+
+
+# ================================================================================ MetaRunner (K4, K5) and accept (K6)
+Runners = TMap(val=BaseR)
+MetaR = TObj(RUN + "meta_runner:MetaRunner", _logger=PyLogger, _runners=Runners, _runner_queues=TMap(val=TSeq(TAny(), "list")), running=TEvent)
+TaskList = TSeq(TAny(), "list")
+
+
+@contract(RUN + "meta_runner:MetaRunner._launch_runners", props=["C01"], skip_body=True, kind="abstract", is_async=True)
+class launch_runners:
+    """(verified under C03/C11) starts one task per runner type and returns the tasks"""
+    params = dict(self=MetaR)
+    result = TaskList
+    fresh_result = True
+    has_events = True
+
+    def writes(c, self):
+        return [(self, "_runners")]
+
+    def emits(c, ctx, self):
+        ctx.emit("launch_runners", self)
+
+
+@contract(RUN + "meta_runner:MetaRunner._unqueue_payloads", props=["C01"], skip_body=True, kind="abstract", is_async=True)
+class unqueue_payloads_iface:
+    """(verified under C03) hands the queued payloads to their runners; may raise what registering raises"""
+    params = dict(self=MetaR)
+    has_events = True
+
+    def writes(c, self):
+        return [("all", "$mhas", lambda x: True), ("all", "$len", lambda x: True)]
+
+    def emits(c, ctx, self):
+        ctx.emit("unqueue_payloads", self)
+
+    raises = {"BaseException": lambda c, self, exc: True}
+
+
+@contract(RUN + "meta_runner:MetaRunner._aclose_runners", props=["C01"], skip_body=True, kind="abstract", is_async=True)
+class aclose_runners_iface:
+    """(verified under C02) closes every runner and awaits their tasks; raises nothing but cancellation"""
+    params = dict(self=MetaR, runner_tasks=TaskList)
+    has_events = True
+
+    def writes(c, self, runner_tasks):
+        return [("all", "$mhas", lambda x: True)]
+
+    def emits(c, ctx, self, runner_tasks):
+        ctx.emit("aclose_runners", self, runner_tasks)
+
+
+def _shield_close_event(c, self):
+    return c.ctx.E.event_kind("aclose_runners")
+
+
+def has_event(c, pred):
+    """some event appended by this call satisfies pred(event)"""
+    k = z3.Int("evk")
+    return z3.Exists([k], z3.And(k >= c.tr_old_len, k < c.trlen, pred(z3.Select(c.tr, k))))
+
+
+def closed_under_shield(c, self):
+    """the runners are closed through `await asyncio.shield(self._aclose_runners(...))` before the exit"""
+    k = z3.Int("shk")
+    sh = c.ctx.E.event_kind("shield")
+    ac = c.ctx.E.event_kind("aclose_runners")
+    return z3.Exists([k], z3.And(k >= c.tr_old_len, k + 1 < c.trlen,
+                                 Event.e_kind(z3.Select(c.tr, k)) == sh, Event.e_a(z3.Select(c.tr, k)) == Z.mk_str(RUN + "meta_runner:MetaRunner._aclose_runners"),
+                                 Event.e_b(z3.Select(c.tr, k)) == self.t,
+                                 Event.e_kind(z3.Select(c.tr, k + 1)) == ac, Event.e_a(z3.Select(c.tr, k + 1)) == self.t))
+
+
+def gather_raised(c, exc_t):
+    gr = c.ctx.E.event_kind("gather-raised")
+    return has_event(c, lambda e: z3.And(Event.e_kind(e) == gr, Event.e_a(e) == exc_t))
+
+
+@contract(RUN + "meta_runner:MetaRunner._manage_runners", props=["C01", "C02"])
+class manage_runners:
+    """K4: whatever makes the gather over the runner tasks fail, all runners are closed under shield before the exit;
+    KeyboardInterrupt is absorbed, any other exception is re-raised itself; `running` is cleared on every exit"""
+    params = dict(self=MetaR)
+    has_events = True
+    result = TAny()
+
+    def writes(c, self):
+        return [(self.running, "isset"), (self, "_runners"), ("all", "$mhas", lambda x: True), ("all", "$len", lambda x: True)]
+
+    def ensures(c, self, result):
+        gr = c.ctx.E.event_kind("gather-raised")
+        return {
+            "running-cleared": c.Not(flag(self.running, "isset")),
+            "returns-normally-only-when-nothing-failed-or-on-KeyboardInterrupt-after-closing-all-runners": c.Or(
+                c.Not(has_event(c, lambda e: Event.e_kind(e) == gr)), closed_under_shield(c, self)),
+        }
+
+    def _reraises(c, self, exc):
+        return c.And(c.Not(flag(self.running, "isset")),
+                     c.Or(c.And(gather_raised(c, exc.t), closed_under_shield(c, self), c.Not(exc.isa("KeyboardInterrupt"))),
+                          c.Not(has_event(c, lambda e: Event.e_kind(e) == c.ctx.E.event_kind("gather-raised")))))
+
+    raises = {"BaseException": _reraises}
+
+
+@contract(RUN + "meta_runner:MetaRunner.run", props=["C01", "C12"])
+class meta_run:
+    """K5: an Exception out of the event loop becomes RuntimeError chained from it; KeyboardInterrupt ends the run without
+    error; other BaseExceptions propagate"""
+    params = dict(self=MetaR)
+    has_events = True
+    result = TAny()
+
+    def writes(c, self):
+        return [(self.running, "isset"), (self, "_runners"), ("all", "$mhas", lambda x: True), ("all", "$len", lambda x: True)]
+
+    def ensures(c, self, result):
+        le = c.view_term(z3.Select(c.ctx.rd(c.new_heap, "$ghost_loop_exc"), 0), TExc(), c.new_heap)
+        return {"returns-only-if-the-loop-returned-or-was-interrupted": c.Or(Z.is_none(le.t), le.isa("KeyboardInterrupt"))}
+
+    def _wrapped(c, self, exc):
+        le = c.view_term(z3.Select(c.ctx.rd(c.new_heap, "$ghost_loop_exc"), 0), TExc(), c.new_heap)
+        cause = z3.Select(c.ctx.rd(c.new_heap, "__cause__"), exc.id)
+        return c.And(c.Not(Z.is_none(le.t)), c.Not(le.isa("KeyboardInterrupt")),
+                     c.Implies(le.isa("Exception"), c.And(exc.cls_is("RuntimeError"), cause == le.t)),
+                     c.Implies(c.Not(le.isa("Exception")), exc.t == le.t))
+
+    raises = {"BaseException": _wrapped}
+
+
+# ================================================================================ execute (C10)
+def _call_payload(I, self, payload):
+    r = I.call(payload, [], {})
+    r2 = I.ctx.from_val(r) if isinstance(r, SV) else r
+    from pyvc.interp import Coro
+    if isinstance(r2, Coro):
+        r = r2.thunk()
+    return r
+
+
+@contract(RUN + "base_runner:BaseRunner.run_payload", props=["C10"], skip_body=True, kind="abstract")
+class base_run_payload:
+    """interface of runner.run_payload(payload): runs the payload exactly once in the runner's flavour and its outcome IS
+    the outcome of the call (verified per runner below)"""
+    params = dict(self=BaseR, payload=TFn(Payload.contract))
+    has_events = True
+
+    def emits(c, ctx, self, payload):
+        ctx.emit("run_payload", self, payload)
+
+    delegate = _call_payload
+
+
+def _passes_through(c, payload_term, first, result=None, exc=None):
+    """events from index `first`: the payload is called exactly once, and its outcome is the outcome of this call"""
+    e0, e1 = c.event_at(first), c.event_at(first + 1)
+    called = c.And(c.n_events() == first + 2, Event.e_kind(e0) == c.ctx.E.event_kind("payload"), Event.e_a(e0) == payload_term)
+    if exc is None:
+        return c.And(called, Event.e_kind(e1) == c.ctx.E.event_kind("returned"), Event.e_b(e1) == (result.t if result is not None else Z.NONE))
+    return c.And(called, Event.e_kind(e1) == c.ctx.E.event_kind("raised"), Event.e_b(e1) == exc.t)
+
+
+@contract(RUN + "thread_runner:ThreadRunner.run_payload", props=["C10", "C11"])
+class thread_run_payload:
+    params = dict(self=ThreadR, payload=Payload)
+    has_events = True
+    result = TAny()
+
+    def ensures(c, self, payload, result):
+        return {"called-once-in-the-callers-thread-result-by-identity": _passes_through(c, payload.t, 0, result=result)}
+
+    raises = {"BaseException": lambda c, self, payload, exc: _passes_through(c, payload.t, 0, exc=exc)}
+
+
+@contract(RUN + "asyncio_runner:AsyncioRunner.run_payload", props=["C10", "C11"])
+class asyncio_run_payload:
+    params = dict(self=AsyncR, payload=APayload)
+    has_events = True
+    result = TAny()
+
+    def ensures(c, self, payload, result):
+        return {"submitted-to-the-runners-own-loop": c.And(ev_kind(c, 0, "run_coroutine_threadsafe"), Event.e_a(c.event_at(0)) == self.asyncio_loop.t,
+                                                           c.event_at(1) == c.event("on-loop-thread", self.asyncio_loop)),
+                "called-once-result-by-identity": _passes_through(c, payload.t, 2, result=result)}
+
+    raises = {"BaseException": lambda c, self, payload, exc: c.And(ev_kind(c, 0, "run_coroutine_threadsafe"), Event.e_a(c.event_at(0)) == self.asyncio_loop.t,
+                                                                   _passes_through(c, payload.t, 2, exc=exc))}
+
+
+TrioR2 = TObj(RUN + "trio_runner:TrioRunner", asyncio_loop=ALoop, _logger=PyLogger, _stopped=TEvent, _ready=TAny(), _trio_token=TOpt(TRef()), _submit_tasks=TOpt(TRef()))
+
+
+@contract(RUN + "trio_runner:TrioRunner.run_payload", props=["C10", "C11"])
+class trio_run_payload:
+    params = dict(self=TrioR2, payload=APayload)
+    has_events = True
+    result = TAny()
+
+    def requires(c, self, payload):
+        # published-state invariant of a runner reachable through MetaRunner._runners: token and channel are set
+        return c.And(self._trio_token != None, self._submit_tasks != None)
+
+    def ensures(c, self, payload, result):
+        return {"runs-in-the-single-trio-run-of-this-runner": c.event_at(0) == c.event("in-trio-thread", self._trio_token),
+                "called-once-result-by-identity": _passes_through(c, payload.t, 1, result=result)}
+
+    def _r(c, self, payload, exc):
+        return c.Or(c.And(c.event_at(0) == c.event("in-trio-thread", self._trio_token), _passes_through(c, payload.t, 1, exc=exc)),
+                    # preconditions of trio.from_thread.run (the property excludes same-flavour calls and a finished runtime)
+                    c.And(c.n_events() == 1, c.Or(ev_kind(c, 0, "from_thread.run-finished"), ev_kind(c, 0, "from_thread.run-same-thread"))))
+
+    raises = {"BaseException": _r}
+
+
+@contract(RUN + "meta_runner:MetaRunner.run_payload", props=["C10"])
+class meta_run_payload:
+    params = dict(self=MetaR, payload=Payload, flavour=TAny())
+    transparent = True      # callers (execute) are verified through its real body
+    has_events = True
+    result = TAny()
+
+    def requires(c, self, payload, flavour):
+        return self._runners.has(flavour)      # "it is an error to call it before the runners are started"
+
+    def ensures(c, self, payload, flavour, result):
+        return {"delegates-to-the-runner-of-the-requested-flavour": c.event_at(0) == c.event("run_payload", self._runners[flavour], payload)}
+
+    raises = {"BaseException": lambda c, self, payload, flavour, exc: c.event_at(0) == c.event("run_payload", self._runners[flavour], payload)}
+
+
+SvcR = TObj(RUN + "service:ServiceRunner", _logger=PyLogger, _meta_runner=MetaR, _must_shutdown=TBool(), _is_shutdown=TEvent, running=TEvent, accept_delay=NumFin)
+Payload2 = payload_type("payload", arity=2)
+
+
+def _some_args(ctx):
+    from pyvc.values import VTuple, SV
+    from pyvc.engine import fresh_val
+    # both shapes of a call: no arguments at all, or a representative argument list (2 positional + 1 keyword)
+    ctx.ghost["with_args"] = ctx.choose(2, "argument-list") == 1
+    return VTuple([SV(fresh_val("a0")), SV(fresh_val("a1"))]) if ctx.ghost["with_args"] else VTuple([])
+
+
+def _some_kwargs(ctx):
+    from pyvc.values import VDict, SV
+    from pyvc.engine import fresh_val
+    return VDict({"k": SV(fresh_val("kv"))}) if ctx.ghost["with_args"] else VDict({})
+
+
+def _payload_call_event(c, payload, args, kwargs, k):
+    e = c.event_at(k)
+    with_args = len(args) > 0
+    return c.And(Event.e_kind(e) == c.ctx.E.event_kind("payload"), Event.e_a(e) == payload.t,
+                 Event.e_b(e) == (args[0].t if with_args else Z.NONE), Event.e_c(e) == (args[1].t if with_args else Z.NONE),
+                 Event.e_d(e) == (kwargs["k"].t if with_args else Z.NONE))
+
+
+@contract(RUN + "service:ServiceRunner.execute", props=["C10"])
+class execute:
+    """the payload is run exactly once with exactly the given arguments in the requested flavour's runner; the caller gets
+    the very object returned / the very exception raised; NOTHING of the runtime is written (empty frame): in particular
+    no failure is recorded and nobody is cancelled"""
+    params = {"self": SvcR, "payload": Payload2, "args": _some_args, "flavour": TAny(), "kwargs": _some_kwargs}
+    has_events = True
+    result = TAny()
+
+    def requires(c, self, payload, args, flavour, kwargs):
+        return self._meta_runner._runners.has(flavour)
+
+    def ensures(c, self, payload, args, flavour, kwargs, result):
+        runner = self._meta_runner._runners[flavour]
+        return {
+            "handed-to-the-runner-of-the-requested-flavour": c.And(ev_kind(c, 0, "run_payload"), Event.e_a(c.event_at(0)) == runner.t),
+            "called-exactly-once-with-exactly-the-arguments": c.And(c.n_events() == 3, _payload_call_event(c, payload, args, kwargs, 1)),
+            "returns-the-very-object": c.event_at(2) == c.event("returned", payload, result),
+        }
+
+    def _r(c, self, payload, args, flavour, kwargs, exc):
+        return c.And(c.n_events() == 3, ev_kind(c, 0, "run_payload"), _payload_call_event(c, payload, args, kwargs, 1), c.event_at(2) == c.event("raised", payload, exc))
+
+    raises = {"BaseException": _r}
